@@ -225,6 +225,7 @@ int main(int argc, char* const* argv)
     char* script_str = nullptr;
     if (pipe_in) {
         char buf[1024];
+        buf[0] = 0;
         if (!fgets(buf, 1024, stdin)) {
             fprintf(stderr, "warning: no input\n");
         }
